@@ -8,6 +8,7 @@ import (
 	"time"
 
 	of "github.com/contiv/libOpenflow/openflow13"
+	"github.com/contiv/libOpenflow/protocol"
 	"github.com/contiv/libOpenflow/util"
 	"pgregory.net/rapid"
 	"verifharness/ev"
@@ -139,6 +140,10 @@ func TestC13(t *testing.T) {
 		addLabels(c, gv.labels)
 		c.Label("family=" + gv.family)
 		v := gv.v
+		if gv.family == "packet" && c13LooseIHL(rt, v) {
+			c.Label("ipv4_header_length_left_to_library")
+			gv.kind += "(ihl<options)"
+		}
 		nops := rapid.IntRange(2, 12).Draw(rt, "nops")
 		var hist []string
 		var firstEnc, lastEnc []byte
@@ -272,6 +277,42 @@ func TestC13(t *testing.T) {
 			c.Sample(map[string]any{"kind": gv.kind, "history": hist, "bytes": len(firstEnc)})
 		}
 	})
+}
+
+// c13LooseIHL finds an IPv4 header with options inside v and, in half of the
+// cases, lowers its IHL below what the options need (0, as NewIPv4 leaves it, or
+// any value short of the options) - the caller who sets Options and leaves the
+// header length to the library. The encoder copies options and payload with
+// clipping copies, so such a value is encodable as long as the payload is at
+// least as long as the uncovered part of the options (otherwise HEAD slices
+// past the buffer: not an encodable value, not drawn). What it encodes to is
+// not C13's business; that it does so repeatably is.
+func c13LooseIHL(rt *rapid.T, v util.Message) bool {
+	var ip *protocol.IPv4
+	switch x := v.(type) {
+	case *protocol.IPv4:
+		ip = x
+	case *protocol.Ethernet:
+		ip, _ = x.Data.(*protocol.IPv4)
+	}
+	if ip == nil || ip.Options.Len() == 0 || ip.IHL <= 5 {
+		return false
+	}
+	if gen.Pick(rt, "loose_ihl", 2) != 0 {
+		return false
+	}
+	nopt := int(ip.IHL) - 5
+	ihl := gen.Pick(rt, "ihl_words_covered", nopt) // 0..nopt-1 option words covered
+	uncovered := 4 * (nopt - ihl)
+	if ip.Data != nil && int(ip.Data.Len()) < uncovered {
+		return false
+	}
+	if ihl == 0 && rapid.Bool().Draw(rt, "ihl_zero") {
+		ip.IHL = 0
+	} else {
+		ip.IHL = uint8(5 + ihl)
+	}
+	return true
 }
 
 // one outbound stream per test process (a MessageStream owns ~28 goroutines)
